@@ -133,6 +133,8 @@ def _call(cs, f, s):
         return f.dropna(axis=cs['axis'], condition=np.all if cs['cond'] == 'all' else np.any)
     if op == 'f_fillna':
         return f.fillna(P.dec(cs['v']))
+    if op == 'f_fillna_frame':
+        return f.fillna(P.build_frame(cs['val']))
     if op == 'f_filldir':
         return (f.fillna_forward if cs['forward'] else f.fillna_backward)(cs['limit'], axis=cs['axis'])
     if op == 'f_fillsided':
@@ -176,7 +178,7 @@ def normalise(res, cs=None):
         res = dict(res)
         res['cols'] = [{'dt': ['any', 0], 'vals': [_canon(v) for v in c['vals']]} for c in res['cols']]
         return res
-    if cs is not None and cs['op'] in ('f_filldir', 'f_fillsided') and cs.get('axis') == 1 and res.get('k') == 'frame':
+    if cs is not None and ((cs['op'] in ('f_filldir', 'f_fillsided') and cs.get('axis') == 1) or cs['op'] == 'f_fillna_frame') and res.get('k') == 'frame':
         res = dict(res)
         res['cols'] = [{'dt': ['any', 0], 'vals': [['na'] if v[0] in ('nan', 'none', 'nat') else _canon(v) for v in c['vals']]} for c in res['cols']]
         return res
